@@ -442,7 +442,7 @@ def strat(tier):
 
 
 def strat_plain(tier):
-    return st.fixed_dictionaries({'spec': dag.st_ord_dag(max_nodes=6), 'route': st.sampled_from(['plain', 'plain-le'])})
+    return st.fixed_dictionaries({'spec': dag.st_ord_dag(max_nodes=6), 'route': st.sampled_from(['plain', 'plain-le', 'tvm-le'])})
 
 
 def classify(case):
